@@ -174,6 +174,149 @@ pub fn lexicase_case(c: &Case) -> (u64, u64, Option<(String, String)>, usize) {
     (leaves, cps, None, decided_law.mass.len())
 }
 
+/// Individuals that survive *some* ordering of the considered cases: the members of the sets that
+/// are fixed points of every per-case filter and reachable from the whole population (a filter
+/// applied again to a subset of its own result changes nothing, so sequences with repetition reach
+/// the same final sets as permutations).
+pub fn support(c: &Case) -> std::collections::BTreeSet<usize> {
+    let n = c.rows.len();
+    let mut out = std::collections::BTreeSet::new();
+    if n == 0 {
+        return out;
+    }
+    assert!(n <= 16);
+    let filter = |set: u32, case: usize| -> u32 {
+        let vals = (0..n).filter(|i| set >> i & 1 == 1).map(|i| c.rows[i][case]);
+        let best = if c.errors { vals.min() } else { vals.max() }.unwrap();
+        (0..n).filter(|i| set >> i & 1 == 1 && c.rows[*i][case] == best).fold(0u32, |a, i| a | 1 << i)
+    };
+    let mut seen = std::collections::BTreeSet::new();
+    let mut work = vec![(1u32 << n) - 1];
+    while let Some(set) = work.pop() {
+        if !seen.insert(set) {
+            continue;
+        }
+        let mut fixed = true;
+        for case in 0..c.cases {
+            let f = filter(set, case);
+            if f != set {
+                fixed = false;
+                work.push(f);
+            }
+        }
+        if fixed {
+            out.extend((0..n).filter(|i| set >> i & 1 == 1));
+        }
+    }
+    out
+}
+
+/// Structured matrices for many cases: everybody tied everywhere except at a few marked cases.
+/// `marks[i]` = the cases on which individual i is strictly better than the rest.
+fn structured(n: usize, c: usize, marks: &[Vec<usize>], errors: bool) -> Case {
+    let mut rows = vec![vec![5i64; c]; n];
+    for (i, m) in marks.iter().enumerate() {
+        for k in m {
+            rows[i][*k] = if errors { 4 } else { 6 };
+        }
+    }
+    Case { rows, cases: c, errors }
+}
+
+fn marked_positions(c: usize) -> Vec<usize> {
+    let mut v = vec![0, 1, c / 2, c.saturating_sub(2), c - 1];
+    for t in [255usize, 256, 511, 512, 513, 1023, 1024] {
+        if t < c {
+            v.push(t);
+        }
+    }
+    v.sort();
+    v.dedup();
+    v
+}
+
+/// structured scenarios for c cases: two and three individuals, the deciding cases at every pair of marked positions
+fn structured_cases(c: usize, all_pairs: bool, law_mode: bool) -> Vec<Case> {
+    let mut out = vec![];
+    let pos = if all_pairs { (0..c).collect::<Vec<_>>() } else { marked_positions(c) };
+    for errors in [false, true] {
+        for (a, i) in pos.iter().enumerate() {
+            for j in pos.iter().skip(a + 1) {
+                // A better on i, B better on j; and the mirror image
+                out.push(structured(2, c, &[vec![*i], vec![*j]], errors));
+                if !law_mode || c <= 6 {
+                    out.push(structured(2, c, &[vec![*j], vec![*i]], errors));
+                }
+            }
+        }
+        let (i, j, k) = (pos[0], pos[pos.len() / 2], pos[pos.len() - 1]);
+        if i < j && j < k {
+            out.push(structured(3, c, &[vec![i], vec![j], vec![k]], errors));
+            // the third individual is never better (dominated unless nobody is better): must not win
+            out.push(structured(3, c, &[vec![i], vec![k], vec![]], errors));
+            // A better on two cases, B on one: 2/3 vs 1/3
+            out.push(structured(2, c, &[vec![i, k], vec![j]], errors));
+            // a twin of A: co-survivors split evenly (a second draw: law mode only with few cases)
+            if !law_mode || c <= 6 {
+                out.push(structured(3, c, &[vec![j], vec![j], vec![k]], errors));
+            }
+        }
+        // only the last case tells them apart; nobody is ever better
+        out.push(structured(2, c, &[vec![c - 1], vec![]], errors));
+        if !law_mode || c <= 6 {
+            out.push(structured(3, c, &[vec![], vec![], vec![]], errors));
+        }
+    }
+    out
+}
+
+/// Many cases: the order is not enumerable, so no law; on every explored stream (all streams with at
+/// most `dev` non-default words over the extended grid) the winner must be an individual that
+/// survives some ordering, hence is not dominated.
+fn long_case(c: &Case, dev: usize) -> (u64, u64, Option<(String, String)>) {
+    let sup = support(c);
+    let marks: Vec<Vec<usize>> = c.rows.iter().map(|r| (0..c.cases).filter(|k| r[*k] != 5).collect()).collect();
+    let label = format!("{} individuals tied on {} cases except: better at {:?}; polarity={}", c.rows.len(), c.cases, marks, if c.errors { "error" } else { "score" });
+    let mut bad: Option<(String, String)> = None;
+    let mut winners = std::collections::BTreeSet::new();
+    let st = mcx::explore_bounded_h(
+        |env| observe(c, env, Alphabet::Ext(4)),
+        |_, o| match o {
+            SelObs::Idx(i) => {
+                winners.insert(i);
+                if !sup.contains(&i) && bad.is_none() {
+                    bad = Some((format!("lexicase/long/not-a-survivor/c={}", c.cases), format!("{label}: returned individual {i}, which survives no ordering of the cases{}", if dominated(c, i) { " (it is Pareto-dominated)" } else { "" })));
+                }
+            }
+            other => {
+                if bad.is_none() {
+                    bad = Some((format!("lexicase/long/result/c={}", c.cases), format!("{label}: unexpected result {other:?}")));
+                }
+            }
+        },
+        dev,
+        4000,
+        400_000,
+    );
+    if bad.is_none() {
+        if let Some(d) = &st.diverged {
+            bad = Some(("lexicase/nondeterministic".into(), format!("{label}: {d}")));
+        }
+    }
+    (st.leaves, st.choice_points, bad)
+}
+
+pub fn long_case_counts(quick: bool) -> Vec<usize> {
+    let mut v: Vec<usize> = (9..=70).collect();
+    v.extend([127, 128, 129, 255, 256, 257, 258, 511, 512, 513, 514, 515, 1023, 1024, 1025, 1026]);
+    if !quick {
+        v.extend(71..=126);
+        v.extend(130..=254);
+        v.extend([2047, 2048, 2049, 4097, 65535, 65536, 65537]);
+    }
+    v
+}
+
 fn matrices(n: usize, c: usize, values: &[i64]) -> Vec<Vec<Vec<i64>>> {
     let flat = all_value_vectors(n * c, values);
     flat.into_iter()
@@ -229,6 +372,11 @@ pub fn run(run: &mut Run) {
         push_all(3, 5, &v2, &mut cases);
         push_all(1, 5, &v3, &mut cases);
     }
+    // structured matrices with more cases, exact law: the deciding cases at every pair of positions
+    let law_c_max = if quick { 8 } else { 10 };
+    for c in 5..=law_c_max {
+        cases.extend(structured_cases(c, c <= 8, true));
+    }
     let results = mcx::par_map(cases.len(), |i| lexicase_case(&cases[i]));
     let mut nontrivial = 0;
     for (i, (leaves, cps, v, outcomes)) in results.into_iter().enumerate() {
@@ -246,10 +394,35 @@ pub fn run(run: &mut Run) {
             run.violation(k, w, json!({"check":"C08","rows":c.rows,"cases":c.cases,"errors":c.errors}));
         }
     }
-    run.states = cases.len() as u64;
+    // many cases (every-stream oracles only)
+    let counts = long_case_counts(quick);
+    let long: Vec<(Case, usize)> = counts
+        .iter()
+        .flat_map(|c| {
+            let dev = if *c <= 40 && !quick { 2 } else { 1 };
+            structured_cases(*c, false, false).into_iter().map(move |k| (k, dev))
+        })
+        .collect();
+    let long_results = mcx::par_map(long.len(), |i| long_case(&long[i].0, long[i].1));
+    let mut long_streams = 0u64;
+    for (i, (leaves, cps, v)) in long_results.into_iter().enumerate() {
+        run.evaluations += leaves;
+        run.transitions += cps;
+        long_streams += leaves;
+        if let Some((k, w)) = v {
+            let c = &long[i].0;
+            run.violation(k, w, json!({"check":"C08","long":true,"dev":long[i].1,"rows":c.rows,"cases":c.cases,"errors":c.errors}));
+        }
+    }
+    run.note("long.scenarios", json!(long.len()));
+    run.note("long.streams", json!(long_streams));
+    run.bound("law.max_cases_structured", json!(law_c_max));
+    run.bound("long.case_counts", json!(if quick { "9..=70, 127..=129, 255..=258, 511..=515, 1023..=1026" } else { "9..=258, 511..=515, 1023..=1026, 2047..=2049, 4097, 65535..=65537" }));
+    run.bound("long.streams", json!("all streams with at most 1 non-default word (2 up to 40 cases, thorough) over the extended grid Ext(4), horizon 4000 words"));
+    run.states = (cases.len() + long.len()) as u64;
     run.traces_validated = run.evaluations;
     run.distinct_nontrivial = nontrivial;
-    run.rule = "every result matrix (n individuals x c cases over a small value set, ties and duplicates included) x both polarities x configured case counts {c, c-1, 0}; all word sequences of the Rep(12!, max(n,c)!) alphabet explored on the real Lexicase::select; exact law compared with the enumeration of all case orders; non-trivial = scenarios whose law has more than one outcome".into();
+    run.rule = "every result matrix (n individuals x c cases over a small value set, ties and duplicates included) x both polarities x configured case counts {c, c-1, 0}; all word sequences of the Rep(12!, max(n,c)!) alphabet explored on the real Lexicase::select; exact law compared with the enumeration of all case orders; structured matrices (everybody tied except at marked cases; the deciding cases at every pair of positions) with exact law up to law.max_cases_structured cases; beyond that no law (the case order is not enumerable): for the case counts of long.case_counts and structured matrices with the deciding cases at the ends, the middle and around 256/512/1024, on every explored stream the winner must survive some ordering of the cases (so it is never dominated); non-trivial = scenarios whose law has more than one outcome".into();
     run.bound("quick", json!(quick));
     run.bound("matrices", json!(if quick { "n<=3, c<=3 over 3 values; n=4, c<=2 and n=2, c=4 over 3 values; n=4, c=3 / n=3, c=4 / n=5, c=2 over 2 values" } else { "quick set plus n=4, c=3 and n=3, c=4 and n=1, c=5 over 3 values; n=4, c=4 / n=5, c=3 / n=6, c=2 / n=2, c=5 / n=3, c=5 over 2 values" }));
     run.assumptions = vec![
@@ -265,6 +438,20 @@ pub fn replay(v: &Value) -> bool {
         .map(|a| a.iter().map(|r| r.as_array().map(|x| x.iter().filter_map(|y| y.as_i64()).collect()).unwrap_or_default()).collect())
         .unwrap_or_default();
     let c = Case { rows, cases: v["cases"].as_u64().unwrap_or(0) as usize, errors: v["errors"].as_bool().unwrap_or(false) };
+    if v["long"] == json!(true) {
+        let (leaves, _, viol) = long_case(&c, v["dev"].as_u64().unwrap_or(1) as usize);
+        println!("{} individuals x {} cases; survivors of some ordering: {:?}; {leaves} streams explored", c.rows.len(), c.cases, support(&c));
+        return match viol {
+            Some((k, w)) => {
+                println!("MISMATCH [{k}]: {w}");
+                false
+            }
+            None => {
+                println!("replay: property held");
+                true
+            }
+        };
+    }
     println!("case: {c:?}");
     println!("reference law: {}", lexicase_law(&c).render());
     let (leaves, _, viol, _) = lexicase_case(&c);
